@@ -453,10 +453,63 @@ pub fn run(ctx: &mut Ctx) {
         }
     }
 
+    // ---- valid files decode to referentially closed ontologies: every D(3) graph over {1, 118, 200} x every
+    // assignment of the names {"", "x", "All"} x every term-record order x v1-v3, a record of every kind on the
+    // term whose record comes last (a term record dropped at a section boundary would leave its id dangling)
+    {
+        use crate::encode::{encode, EncOpts};
+        let dags = crate::space::all_dags(3);
+        ctx.space("decoder/valid-files-are-closed", &format!("{} labelled DAGs over [1, 118, 200] x 6 assignments of the names \"\", x, All x 6 term-record orders x v1, v2, v3; a gene / OMIM / ORPHA record on the term stored last: the decoded ontology must be walkable and equal to the model", dags.len()));
+        let perms = crate::space::permutations(3);
+        for d in &dags {
+            if !ctx.take() {
+                continue;
+            }
+            ctx.state();
+            ctx.nontrivial();
+            let base = Facts::from_dag(d, &[1, 118, 200, 0, 0, 0]);
+            for np in &perms {
+                for op in &perms {
+                    let mut f = base.clone();
+                    f.version = (2024, 2, 29);
+                    let names = ["", "x", "All"];
+                    for (i, t) in f.terms.iter_mut().enumerate() {
+                        t.name = names[np[i]].to_string();
+                    }
+                    f.terms = crate::space::apply_perm(&f.terms, op);
+                    let last = f.terms[2].id;
+                    for kind in [Kind::Gene, Kind::Omim, Kind::Orpha] {
+                        f.anns.push(Facts::ann(kind, 7, "Seven", Some(last)));
+                    }
+                    for version in [3u8, 2, 1] {
+                        let pf = crate::encode::project(&f, version);
+                        let r = RefOnt::derive(&pf);
+                        ctx.transitions(pf.n_steps());
+                        let case = || json!({"facts": pf.to_json(), "format_version": version, "term_record_order": op});
+                        match crate::drive::from_bytes(&encode(&pf, &EncOpts::v(version))) {
+                            Ok(Ok(ont)) => {
+                                crate::drive::check_against_model(ctx, &ont, &r, Mode::Defaults, &format!("binary v{version}"), &case);
+                            }
+                            Ok(Err(e)) => {
+                                ctx.exec();
+                                ctx.violation("Ontology::from_bytes", "rejects a file laid out as documented", json!({"case": case(), "observed": e}));
+                            }
+                            Err(p) => {
+                                ctx.exec();
+                                ctx.violation("Ontology::from_bytes", "panics on a file laid out as documented", json!({"case": case(), "observed": p}));
+                            }
+                        }
+                    }
+                }
+            }
+            ctx.sample(|| json!({"dag": d.describe(), "name_assignments": 6, "record_orders": 6}));
+        }
+    }
+
     // ---- sub_ontology builds its result through the same builder: the result must be referentially closed
     for n in 3..=4usize {
         let dags = crate::space::all_dags(n);
-        ctx.space(&format!("sub_ontology/D{n}/closure"), &format!("{} labelled DAGs (one gene on every term) x every root x every leaf and ordered leaf pair: sub_ontology succeeds exactly when the leaves are below root and its result can be walked through the whole read API", dags.len()));
+        ctx.space(&format!("sub_ontology/D{n}/closure"), &format!("{} labelled DAGs (one gene on every term; Builder-built, and decoded with each term in turn flagged obsolete + replaced) x every root x every leaf and ordered leaf pair: sub_ontology succeeds exactly when the leaves are below root and its result can be walked through the whole read API", dags.len()));
         for d in &dags {
             if !ctx.take() {
                 continue;
@@ -473,7 +526,26 @@ pub fn run(ctx: &mut Ctx) {
             }
             let r = RefOnt::derive(&f);
             ctx.transitions(f.n_steps());
-            let Ok(src) = crate::drive::build(&f, Mode::Minimal) else { continue };
+            // Builder-built source, and the same graph decoded from a v3 file with each term in turn flagged
+            // obsolete and replaced (a flagged term keeps its links; the copy loop must not skip it)
+            let mut sources: Vec<Ontology> = vec![];
+            if let Ok(src) = crate::drive::build(&f, Mode::Minimal) {
+                sources.push(src);
+            }
+            for k in 0..n {
+                let mut g = f.clone();
+                g.version = (2024, 2, 29);
+                g.terms[k].obsolete = true;
+                g.terms[k].replacement = Some(ids[(k + 1) % n]);
+                // the decoder installs defaults: give it the two root terms as unrelated extra terms
+                g.terms.push(Facts::term(1, "All"));
+                g.terms.push(Facts::term(118, "Phenotypic abnormality"));
+                g.edges.push((118, 1));
+                if let Ok(Ok(src)) = crate::drive::from_bytes(&crate::encode::encode(&g, &crate::encode::EncOpts::v(3))) {
+                    sources.push(src);
+                }
+            }
+            for src in &sources {
             for &root in &ids {
                 let mut collections: Vec<Vec<u32>> = ids.iter().map(|a| vec![*a]).collect();
                 for a in &ids {
@@ -502,6 +574,7 @@ pub fn run(ctx: &mut Ctx) {
                         (Err(p), _) => ctx.violation("Ontology::sub_ontology", "[sub_ontology] panics", json!({"case": case(), "observed": p})),
                     }
                 }
+            }
             }
             ctx.sample(|| json!({"dag": d.describe(), "ids": ids}));
         }
